@@ -148,7 +148,7 @@ func checkC09(c c09Case, ctx *vCtx) *vFailure {
 		if c.Bin {
 			r := vRunBin(inv, 30*time.Second)
 			if r.Exit == -999 {
-				vFault("real binary timed out on %v", args)
+				vHang("the real binary did not terminate within its time limit on %v", args)
 			}
 			if r.Failed && strings.Contains(r.Stderr, "goroutine ") {
 				r.Panic = r.Stderr
